@@ -1663,6 +1663,11 @@ def check_C14(A: Analysis, tier):
                 "object outside construction (shared with C07.g) - a value written to the class by opening another store changes this store's algorithm", floor=10)
     shared_state_rule(A, rg14)
     rules.append(rg14)
+    from .rules_paths import int_config_rule
+    ri14 = Rule("C14", "C14.i", "the depth and width an instance works with, and those it records, are the integers the validator made of the supplied values "
+                "(the rule of C15.h): integer-like strings are an accepted spelling of the pinned configuration, not another configuration", floor=2)
+    int_config_rule(A, ri14)
+    rules.append(ri14)
     return rules
 
 
